@@ -16,7 +16,7 @@ def session_of(obs, lineno):
             skip -= 1          # the C lines a P step was expanded into by the harness
             continue
         out.append(l.split(" => ")[0])
-        skip = len(l.split()) - 1 if l.startswith("PAR ") else 0
+        skip = len(l.split()) - 1 if l.startswith("PAR ") else (1 if l.startswith("STALL ") else 0)
     return out
 
 
@@ -37,7 +37,7 @@ def readable(lines):
     return out
 
 
-def run_serve_suite(R, ctx, name, nsess, what, parallel=0, **genargs):
+def run_serve_suite(R, ctx, name, nsess, what, parallel=0, stalls=(), **genargs):
     R.rule = ("sessions: 1-4 connections (net.Pipe) against one server.Manager.Handle; each step writes a pipeline of 1-5 commands (string/key "
               "commands, SELECT with valid and invalid arguments, SUBSCRIBE, PUBLISH with binary payloads, values that are not commands, "
               "protocol damage) followed by a sentinel PING, and collects every byte the server wrote; drains collect Pub/Sub pushes; some "
@@ -56,6 +56,8 @@ def run_serve_suite(R, ctx, name, nsess, what, parallel=0, **genargs):
         lines += servegen.session(rng, **genargs)
     for _ in range(parallel if R.tier == "quick" else parallel * 8):
         lines += servegen.parallel_session(rng)
+    for ms in stalls:
+        lines += servegen.slow_reader_session(rng, ms)
     obs, d, crashes, se = judge(binary, lines)
     core.negative_control(R, obs, "serve/" + name, skip=lambda l: not l.startswith("C ") or " => " not in l, group=True)
     kinds = collections.Counter(l.split()[0] for l in obs)
